@@ -609,6 +609,62 @@ def _full(ctx):
 
 
 # ------------------------------------------------------------------------------------------------ entry points
+_HIER_CHILD = r"""
+import sys, json, warnings, dataclasses
+warnings.filterwarnings("ignore")
+sys.path.insert(0, sys.argv[1])
+from muutils.json_serialize import serializable_dataclass, serializable_field
+from maze_dataset.tokenization import maze_tokenizer as mt
+from maze_dataset.tokenization.all_tokenizers import MAZE_TOKENIZER_MODULAR_DEFAULT_VALIDATION_FUNCS as V
+from maze_dataset.utils import all_instances
+from maze_dataset.tokenization.maze_tokenizer import mark_as_unsupported
+import itertools
+Base = mt.CoordTokenizers._CoordTokenizer
+def oracle():
+    # independent of all_instances: concrete subclasses as they are NOW, every combination of their boolean fields, kept when valid
+    out, todo = 0, list(Base.__subclasses__())
+    while todo:
+        c = todo.pop(); todo += c.__subclasses__()
+        if getattr(c, "__abstractmethods__", None): continue
+        fs = [f for f in dataclasses.fields(c) if f.init]
+        if any(f.type not in (bool, "bool") for f in fs): return None
+        for vals in itertools.product([True, False], repeat=len(fs)):
+            try:
+                if c(**{f.name: v for f, v in zip(fs, vals)}).is_valid(): out += 1
+            except Exception: pass
+    return out
+def enum(): return len(list(all_instances(Base, V)))
+res = dict(steps=[])
+res["steps"].append(["shipped hierarchy", enum(), oracle()])
+@serializable_dataclass(frozen=True, kw_only=True)
+class VerifProbeCoord(Base):
+    post: bool = serializable_field(default=False)
+    def to_tokens(self, coord): return [str(coord[0]), str(coord[1]), *((")",) if self.post else ())]
+res["steps"].append(["after a new coordinate-tokenizer class with one boolean field was defined", enum(), oracle()])
+mark_as_unsupported(lambda self_: False)(VerifProbeCoord)
+res["steps"].append(["after that class was marked unsupported", enum(), oracle()])
+print(json.dumps(res))
+"""
+
+
+def _hierarchy_history(ctx):
+    """`all_instances(cls, validation_funcs)` enumerates the element hierarchy AS IT IS: in a fresh interpreter, enumerate the coordinate
+    tokenizers, define one more element class, enumerate again, mark it unsupported, enumerate again — each time against an oracle that
+    walks `__subclasses__()` itself. (Own process: the probe class must not leak into the rest of the check.)"""
+    import subprocess, common as C
+    try:
+        p = subprocess.run([sys.executable, "-c", _HIER_CHILD, str(C.REPO)], capture_output=True, text=True, timeout=600)
+        res = json.loads(p.stdout.strip().split("\n")[-1])
+    except Exception as e:
+        ctx.notes.append(f"hierarchy-history probe did not run: {type(e).__name__}: {str(e)[:100]}"); return
+    for label, got, want in res["steps"]:
+        ctx.case(["hierarchy-history", label]); ctx.count("hierarchy_history_steps")
+        if want is not None and got != want:
+            ctx.violate(f"all_instances(CoordTokenizers._CoordTokenizer, default validation) yields {got} configurations {label}; "
+                        f"walking the class hierarchy as it is now gives {want} valid ones (history: {[s[0] for s in res['steps']]})",
+                        dict(kind="hierarchy_history", steps=res["steps"])); return
+
+
 def run(ctx):
     warnings.filterwarnings("ignore")
     tables = _classes(ctx)
@@ -616,6 +672,7 @@ def run(ctx):
     toks = _sampled(ctx, tables)
     _processes(ctx, toks)
     _zanj(ctx, toks)
+    _hierarchy_history(ctx)
     if not ctx.quick:
         _full(ctx)
     ctx.notes.append("hash distinctness over the whole space is a TEST (thorough tier, exhaustive over the real objects), not a theorem; "
